@@ -34,6 +34,12 @@ def cases(tier, seed):
     # lists that do not fit, handed over in one call: whatever the buffer holds after the refusal must still be consistent
     for sizes in ([66, 3], [30, 30, 30], [1, 68], [34, 34, 1]):
         yield {"k": "overfull", "sizes": sizes, "fill": "default", "files": []}
+    # a file whose length does not fit the 16-bit field of its header (machine language, binary BASIC / data): stored or refused, the buffer
+    # must be consistent afterwards, and after one more addition
+    for kind in ("ML", "BAS", "DATB"):
+        for n in (65535, 65536, 70000):
+            for pre in (0, 2):
+                yield {"k": "toolong", "kind": kind, "n": n, "pre": pre, "fill": "default", "files": []}
     # what the command line tools leave in a --to_dsk target that is already there: whatever kind of file it was before, a target the tool
     # wrote to is a disk image afterwards (a refusal that leaves it alone is fine)
     for tool in ("asm", "futil"):
@@ -103,6 +109,21 @@ def check_case(case):
             images.append((cell, post, None))
         else:
             res["outcome"] = "refused" if post == pre and pre is not None else "nothing written"
+    elif case["k"] == "toolong":
+        from cocoasm.virtualfiles.disk import DiskFile
+        df = DiskFile()
+        seq = [c07.fspec("ML", 2304 - 15, "P{}".format(j)) for j in range(case["pre"])]
+        seq.append(c07.fspec(case["kind"], case["n"], "LONG", "DAT"))
+        seq.append(c07.fspec("ML", 3000, "NEXT"))
+        cellbase = "toolong|{}|{}|pre{}".format(case["kind"], case["n"], case["pre"])
+        for step, s in enumerate(seq):
+            try:
+                df.add_file(C.to_coco(s))
+            except Exception:
+                pass
+            img = bytes(df.get_buffer())
+            images.append(("{}|step{}".format(cellbase, step), img, None))
+        res["transitions"] = len(images)
     elif case["k"] == "overfull":
         from cocoasm.virtualfiles.disk import DiskFile
         df = DiskFile()
@@ -147,7 +168,7 @@ def check_case(case):
         for cat in cats:
             detail = next(p[1] for p in probs if p[0] == cat)
             viol.append({"component": "fsck", "cell": cell, "symptom": "fsck: " + cat, "expected": "consistent Disk BASIC filesystem",
-                         "observed": detail, "input": dict(case, nfiles=len(files))})
+                         "observed": detail, "input": dict(case, nfiles=len(files) if files is not None else None)})
         if not probs and files is not None:
             # "... the stream obtained by concatenating the chain's granules in chain order is header, data, trailer"
             try:
